@@ -32,6 +32,7 @@ func vEngines() []drv.Runner {
 		drv.Wrap(drv.Engine[c20Case]{Property: "C20", Name: "c20", Gen: genC20, Run: runC20, BatchChecks: 100}),
 		// the write-path clause of C05 (only authorized writes take effect) is decided by the same engine
 		drv.Wrap(drv.Engine[c20Case]{Property: "C05", Name: "c20", Gen: genC20, Run: runC20, BatchChecks: 100}),
+		drv.Wrap(drv.Engine[c05oCase]{Property: "C05", Name: "c05-open", Gen: genC05Open, Run: runC05Open, BatchChecks: 100}),
 		drv.Wrap(drv.Engine[c04Case]{Property: "C04", Name: "c04", Gen: genC04, Run: runC04}),
 	}
 }
